@@ -36,6 +36,20 @@ SAME_PATH = [
 def cases(rng, tier):
     n = {"quick": 400, "search": 800, "thorough": 3000}[tier]
     out = []
+    # a default that refers to an override declared LATER (naga orders overrides by dependency): key and field of each
+    # override must stay together
+    fw_truth = [{"name": "gain", "ty": "f32", "id": None, "default": True, "dflt": {"lit": 1.0}},
+                {"name": "exposure", "ty": "f32", "id": 9, "default": True, "dflt": {"mul2": "gain"}},
+                {"name": "bias", "ty": "i32", "id": None, "default": False, "dflt": None}]
+    out.append({"wgsl": "@id(9) override exposure: f32 = gain * 2.0;\noverride gain: f32 = 1.0;\noverride bias: i32;\n"
+                        "@fragment fn fs_main() -> @location(0) vec4<f32> { return vec4<f32>(exposure + f32(bias)); }\n",
+                "family": "forward_reference", "opts": {}, "truth": fw_truth, "assignments": sink.override_assignments(rng, fw_truth)})
+    for nreq in (33, 40):
+        big = [{"name": "req%d" % i, "ty": ["f32", "u32", "i32", "bool"][i % 4], "id": (100 + i) if i % 3 == 0 else None,
+                "default": False, "dflt": None} for i in range(nreq)]
+        decls = "\n".join("%soverride %s: %s;" % ("@id(%d) " % t["id"] if t["id"] is not None else "", t["name"], t["ty"]) for t in big)
+        out.append({"wgsl": decls + "\n@compute @workgroup_size(1) fn main() { _ = req0; }\n", "family": "many_required",
+                    "opts": {}, "truth": big, "assignments": sink.override_assignments(rng, big)})
     for k in range(8):
         decl, truth = SAME_PATH[k % len(SAME_PATH)]
         out.append({"wgsl": _variant(decl), "family": "same_path_same_length", "opts": {}, "include": "gen/overrides.wgsl",
